@@ -25,6 +25,8 @@ package lib
 //  * levelEmitted — which logger methods write at the default level (runtime: a fresh logger of
 //    pkg/station/log and the package-level functions are called and their output observed).
 //  * logClientIPAssigns — the right-hand side of every assignment to logClientIP in cmd/application.
+//  * flattenSites — where an error is flattened into text (fmt.Errorf with an error under a verb other than
+//    %w) on the paths that feed generalizeErr.
 //  * summaryFields — the fields (reflect: name, Go type) of tunnelStats and regExpireLogMsg and the JSON
 //    keys of DecoyRegistration.String().
 
@@ -588,16 +590,19 @@ func c17xFiles(root string) ([]string, error) {
 	return files, nil
 }
 
-func c17xExtract(root string) (sites []c17xSite, assigns []string, skipped []string, err error) {
+// directories whose errors travel up into generalizeErr / a logger of the connection path
+var c17xFlattenDirs = []string{"cmd/application/", "pkg/station/lib/", "pkg/transports/wrapping/"}
+
+func c17xExtract(root string) (sites []c17xSite, assigns []string, skipped []string, flatten []string, err error) {
 	files, err := c17xFiles(root)
 	if err != nil {
-		return nil, nil, nil, err
+		return nil, nil, nil, nil, err
 	}
 	for _, rel := range files {
 		fset := token.NewFileSet()
 		file, err := parser.ParseFile(fset, filepath.Join(root, rel), nil, 0)
 		if err != nil {
-			return nil, nil, nil, err
+			return nil, nil, nil, nil, err
 		}
 		// package-level loggers of this file and assignments to logClientIP (declaration included)
 		globals := map[string]bool{}
@@ -674,6 +679,42 @@ func c17xExtract(root string) (sites []c17xSite, assigns []string, skipped []str
 				}
 			}
 			f.collect(fd.Body)
+			// fmt.Errorf that prints an error with a verb other than %w: the error is flattened into opaque
+			// text, and with it whatever address an operation error inside it names
+			inFlattenDir := false
+			for _, d := range c17xFlattenDirs {
+				inFlattenDir = inFlattenDir || strings.HasPrefix(rel, d)
+			}
+			connMethod := strings.HasPrefix(rel, "pkg/dtls/") && fd.Recv != nil &&
+				(fd.Name.Name == "Read" || fd.Name.Name == "Write" || fd.Name.Name == "Close" || strings.HasPrefix(fd.Name.Name, "Set"))
+			if inFlattenDir || connMethod {
+				ast.Inspect(fd.Body, func(n ast.Node) bool {
+					call, ok := n.(*ast.CallExpr)
+					if !ok || c17xText(fset, call.Fun) != "fmt.Errorf" || len(call.Args) < 2 {
+						return true
+					}
+					_, verbs := f.formatOf(call.Args[0], call.Pos())
+					for i, a := range call.Args[1:] {
+						verb := "v"
+						if i < len(verbs) {
+							verb = verbs[i]
+						}
+						isErr := false
+						if id, ok := a.(*ast.Ident); ok && c17xErrName.MatchString(id.Name) {
+							isErr = true
+						}
+						if c, ok := a.(*ast.CallExpr); ok {
+							if sel, ok := c.Fun.(*ast.SelectorExpr); ok && sel.Sel.Name == "Error" && len(c.Args) == 0 {
+								isErr = true
+							}
+						}
+						if isErr && verb != "w" {
+							flatten = append(flatten, fmt.Sprintf("(%s, %s)", c17xLeanStr(rel), c17xLeanStr(fd.Name.Name)))
+						}
+					}
+					return true
+				})
+			}
 			emit := func(call *ast.CallExpr, level, format string, la []string) {
 				line := fset.Position(call.Pos()).Line
 				sites = append(sites, c17xSite{rel, fd.Name.Name, line, fmt.Sprintf(
@@ -736,7 +777,7 @@ func c17xExtract(root string) (sites []c17xSite, assigns []string, skipped []str
 		}
 		return sites[i].line < sites[j].line
 	})
-	return sites, assigns, c17xDedup(skipped), nil
+	return sites, assigns, c17xDedup(skipped), c17xDedup(flatten), nil
 }
 
 // c17xLevelTable: which methods write with the level a new logger starts with.
@@ -820,7 +861,7 @@ func TestVerifC17Extract(t *testing.T) {
 	if root == "" {
 		root = "../../.."
 	}
-	sites, assigns, skipped, err := c17xExtract(root)
+	sites, assigns, skipped, flatten, err := c17xExtract(root)
 	if err != nil {
 		t.Fatal(err)
 	}
@@ -862,6 +903,8 @@ func TestVerifC17Extract(t *testing.T) {
 		qs = append(qs, c17xLeanStr(a))
 	}
 	b.WriteString("def guardedByLogClientIP : List String := [" + strings.Join(qs, ", ") + "]\n\n")
+	b.WriteString("/-- (file, function) of every fmt.Errorf that prints an error with a verb other than %w — the error is\nflattened into opaque text — in cmd/application, pkg/station/lib, pkg/transports/wrapping and in the\nRead / Write / Close / Set* methods of pkg/dtls -/\n")
+	b.WriteString("def flattenSites : List (String × String) := [" + strings.Join(flatten, ", ") + "]\n\n")
 	b.WriteString("/-- (summary, field or JSON key, Go type or JSON kind) of what the station prints as JSON -/\n")
 	b.WriteString("def summaryFields : List (String × String × String) := [\n  " + strings.Join(c17xSummaryFields(), ",\n  ") + "\n]\n\n")
 	b.WriteString("end CJ.Gen\n")
